@@ -16,17 +16,23 @@ EXTENDS ZipFormat, TLC
 (* T = [p: prepended bytes, b: bytes of the local entries, s: directory    *)
 (*      size, n: entries, c: comment length, g: garbage after the comment, *)
 (*      z: ZIP64 end records present, sent: the 16/32-bit end-record       *)
-(*      fields hold sentinels although the values would fit]               *)
+(*      fields hold sentinels although the values would fit, dsent: its    *)
+(*      two disk-number fields are deferred to the ZIP64 records (0xFFFF)] *)
 (***************************************************************************)
 TailLen(T) == (IF T.z THEN Z64Rec + Z64Loc ELSE 0) + EOCDSize + T.c + T.g
 FileLen(T) == T.p + T.b + T.s + TailLen(T)
 EocdPos(T) == T.p + T.b + T.s + (IF T.z THEN Z64Rec + Z64Loc ELSE 0)
 \* the fields of the end record as a producer writes them
-Eocd(T) == [n    |-> IF T.z /\ T.sent THEN ThrN  ELSE ClampN(T.n),
+Eocd(T) == [disk |-> IF T.z /\ T.dsent THEN ThrN ELSE 0,
+            n    |-> IF T.z /\ T.sent THEN ThrN  ELSE ClampN(T.n),
             size |-> IF T.z /\ T.sent THEN Thr32 ELSE Clamp32(T.s),
             off  |-> IF T.z /\ T.sent THEN Thr32 ELSE Clamp32(T.b)]
 ProducerOK(T) == (NeedZ64End(T.n, T.s, T.b) => T.z)          \* what a conforming producer emits
 
+\* "this record is too small to hold the values": some field of the short end record is at its sentinel, so its
+\* disk numbers say nothing and must not be compared with the ZIP64 locator's (multi-disk archives are refused)
+RecordTooSmall(f) == f.disk = ThrN \/ f.n = ThrN \/ f.size = Thr32 \/ f.off = Thr32
+CONSTANT OBUG          \* "none" | "no_too_small_guard" (spec mutant)
 Err == [ok |-> FALSE, offset |-> 0, dir |-> 0, n |-> 0]
 \* backward search for the end-record signature, bounded by 22 + 65535 bytes from the end
 EocdFound(T) == FileLen(T) >= EOCDSize /\ EocdPos(T) + EOCDSize + Thr16 >= FileLen(T)
@@ -42,7 +48,8 @@ Locate(T) ==
         ELSE \* forward search for the ZIP64 end record from its nominal (relative) offset
              LET nominal == T.b + T.s
                  at == T.p + T.b + T.s IN
-             IF e < 60 \/ at > e - 60 THEN Err
+             IF (~RecordTooSmall(f) \/ OBUG = "no_too_small_guard") /\ f.disk # 0 THEN Err       \* taken for a multi-disk archive
+             ELSE IF e < 60 \/ at > e - 60 THEN Err
              ELSE [ok |-> TRUE, offset |-> at - nominal, dir |-> T.b + (at - nominal), n |-> T.n]
 \* Theorem: every conforming archive, with any amount of prepended data, any comment, and garbage
 \* after the comment only when there are no ZIP64 records, is located exactly.
